@@ -7,6 +7,7 @@ import (
 	"sync/atomic"
 
 	"github.com/deepteams/webp/internal/dsp"
+	"github.com/deepteams/webp/internal/verifhook"
 )
 
 // analysisWorker holds per-worker buffers for parallel analysis.
@@ -249,6 +250,7 @@ func computeAlphas(enc *VP8Encoder, alphas []int) int {
 	}
 
 	numWorkers := runtime.GOMAXPROCS(0)
+	numWorkers = verifhook.Workers("lossy.analysis", numWorkers)
 	if numWorkers > total {
 		numWorkers = total
 	}
